@@ -75,7 +75,7 @@ def kwargs(state):
     return kw
 
 
-def build(fam, kw, bystander=True):
+def build(fam, kw, bystander=False):     # superseded by harness/bystander.py (installed in every scan worker)
     """the solver of a campaign state.  It is never the only, nor the most recently constructed, solver of its class
     in the interpreter: a bystander with other parameter values is constructed (and dropped) after it, so that
     state shared between instances shows up in every scan (a refused bystander is simply not there)."""
